@@ -1,6 +1,7 @@
 package vh
 
 import (
+	"bytes"
 	"strings"
 	"context"
 	"crypto/rand"
@@ -67,6 +68,10 @@ func Farm() *TLSFarm {
 		// a bundle file holding two CAs, and an unparsable file
 		os.WriteFile(filepath.Join(d, "bundleAB.crt"), append(PEMCert(f.cas["caA"].Raw), PEMCert(f.cas["caB"].Raw)...), 0o644)
 		os.WriteFile(filepath.Join(d, "bundleAA2.crt"), append(PEMCert(f.cas["caA"].Raw), PEMCert(f.cas["caA2"].Raw)...), 0o644)
+		// the same CA files without the final newline (a file written by printf, an editor, a templating tool)
+		for _, n := range []string{"caA", "caB"} {
+			os.WriteFile(filepath.Join(d, n+"-nonl.crt"), bytes.TrimRight(PEMCert(f.cas[n].Raw), "\n"), 0o644)
+		}
 		// bundles in which CA A is NOT the first certificate of the file
 		os.WriteFile(filepath.Join(d, "bundleBA.crt"), append(PEMCert(f.cas["caB"].Raw), PEMCert(f.cas["caA"].Raw)...), 0o644)
 		os.WriteFile(filepath.Join(d, "bundleBClientsA.crt"), append(append(append([]byte("# old and new CAs\n"), PEMCert(f.cas["caB"].Raw)...), PEMCert(f.cas["caClients"].Raw)...), PEMCert(f.cas["caA"].Raw)...), 0o644)
